@@ -69,9 +69,15 @@ def funcs(rel, names, stubbed=()):
 
     def helpers(text):
         res = []
-        for n in re.findall(r"\b([A-Za-z_]\w*)\s*\(", text[text.find("{"):]):
+        # every identifier of the body that names a static function of the file: called, or handed on as a pointer
+        # (`qsort(..., cmp)`)
+        body = text[text.find("{"):]
+        cands = list(dict.fromkeys(re.findall(r"\b([A-Za-z_]\w*)\b", body)))
+        for n in cands:
             if n in C_KEYWORDS or n in seen or n.isupper():
                 continue
+            if not re.search(r"\b%s\s*\(" % re.escape(n), src):
+                continue                     # never followed by `(` anywhere in the file: not a function
             seen.add(n)
             h = vf.c_function(src, n)
             if h and re.search(r"\bstatic\b", h.split("{", 1)[0]):
